@@ -196,6 +196,7 @@ func checkC02(r *Report, p *Program) {
 	matchIsSelectorOnly(r, p, "R02.11")
 	// an adoption that reports success has written the controller reference (shared with C03/C04)
 	adoptAlwaysWrites(r, p, "R02.12")
+	rmwAddressedByObjectNamespace(r, p, "R02.13")
 	// an in-place update is conditional on the observed resourceVersion: system metadata reverted to the observed values (shared with C05)
 	r05_4(r, p)
 }
